@@ -38,13 +38,18 @@ def build_pool(rng, quick):
     ok_built = {}
     # registration specs (incl. RP-supplied roots for the built-in-root formats: argument aliasing)
     for fmt in regsim.FORMATS:
-        for variant in ("ok", "rp-only", "untrusted", "fault", "ok-later", "expired"):
+        for variant in ("ok", "rp-only", "untrusted", "other-fmt", "fault", "ok-later", "expired"):
             s = regsim.RScn(fmt, "ES256-P256")
             s.n_inter = 0 if fmt == "fido-u2f" else 1
             if variant == "rp-only":
                 if fmt not in ("apple", "android-key", "android-safetynet"):
                     continue
                 s.roots_mode = "rp-only"
+            if variant == "other-fmt":
+                # the RP's mapping has entries for ANOTHER format only (and is a defaultdict / plain dict alternately): it must come back untouched
+                if fmt not in regsim.X5C_FORMATS:
+                    continue
+                s.roots_mode = "other-fmt"
             if variant == "untrusted":
                 # the very response of "rp-only", presented without the RP root that carried its trust: whatever an earlier call was given must not linger
                 if fmt not in regsim.X5C_FORMATS:
@@ -128,7 +133,7 @@ def run_spec(spec, O=None, R=None):
     elif kind == "reg":
         cred = obj.as_dict()
         kw = pol.kwargs()
-        if kw.get("pem_root_certs_bytes_by_fmt") is not None and len(key) % 2:
+        if kw.get("pem_root_certs_bytes_by_fmt") is not None and (len(key) % 2 or key.endswith("/other-fmt")):
             # mapping types an RP may well use: the mapping must be left alone whatever its type
             import collections
             m = collections.defaultdict(list)
@@ -314,7 +319,7 @@ def run(tier, seed):
             if spec[0] not in first:
                 first[spec[0]] = run_spec(spec)[0]
         # rp-only / untrusted specs of the built-in-root formats substitute an UNRELATED built-in anchor: exclude them from the threaded run (different module-global substitution)
-        calls = [s for s in calls if "rp-only" not in s[0] and not s[0].startswith("real/") and not s[0].endswith(("/ok-later", "/expired")) and not (s[0].endswith("/untrusted") and s[0].split("/")[1] in ("apple", "android-key", "android-safetynet"))]
+        calls = [s for s in calls if "rp-only" not in s[0] and not s[0].startswith("real/") and not s[0].endswith(("/ok-later", "/expired")) and not (s[0].endswith(("/untrusted", "/other-fmt")) and s[0].split("/")[1] in ("apple", "android-key", "android-safetynet"))]
         ths = [threading.Thread(target=worker, args=(t,)) for t in range(16)]
         for t in ths:
             t.start()
